@@ -325,7 +325,7 @@ namespace pika {
         restore_interruption::restore_interruption(disable_interruption& d)
           : interruption_was_enabled_(d.interruption_was_enabled_)
         {
-            if (!interruption_was_enabled_)
+            if (interruption_was_enabled_)
             {
                 interruption_was_enabled_ = threads::detail::set_thread_interruption_enabled(
                     pika::threads::detail::get_self_id(), true);
